@@ -18,7 +18,9 @@ theorem inv_new {cls : DsClass} {shape : List Nat} {data : Option (List Val)} {k
 
 /-- **one step**: every public operation that does not raise maps a coherent receiver to a
 coherent receiver and (when it returns a dataset) a coherent result: origin, sampling and
-units have one entry per array axis, the class matches the dimensionality. -/
+units have one entry per array axis, the class matches the dimensionality.  The alphabet
+includes the subclass methods that return datasets: `Dataset4dstem.get_dp_mean / _max /
+_median`, `Dataset4dstem.get_virtual_image(mask)` and `Dataset3d.to_dataset2d()[k]`. -/
 theorem inv_step {d d' : Ds} {op : Op} {r : Option Ds} (hi : Inv d) (hw : op.WF)
     (h : step d op = .ok (d', r)) : Inv d' ∧ ∀ x, r = some x → Inv x := by
   cases op with
@@ -73,6 +75,27 @@ theorem inv_step {d d' : Ds} {op : Op} {r : Option Ds} (hi : Inv d) (hw : op.WF)
     · rename_i x hx
       simp at h; obtain ⟨rfl, rfl⟩ := h
       exact ⟨hi, by intro y hy; simp at hy; subst hy; exact getitem_inv hx⟩
+  | dpReduce k =>
+    simp only [step] at h
+    split at h
+    · simp at h
+    · rename_i x hx
+      simp at h; obtain ⟨rfl, rfl⟩ := h
+      exact ⟨hi, by intro y hy; simp at hy; subst hy; exact dpReduce_inv hx⟩
+  | virtualImage ms m =>
+    simp only [step] at h
+    split at h
+    · simp at h
+    · rename_i x hx
+      simp at h; obtain ⟨rfl, rfl⟩ := h
+      exact ⟨hi, by intro y hy; simp at hy; subst hy; exact virtualImage_inv hx⟩
+  | frame k =>
+    simp only [step] at h
+    split at h
+    · simp at h
+    · rename_i x hx
+      simp at h; obtain ⟨rfl, rfl⟩ := h
+      exact ⟨hi, by intro y hy; simp at hy; subst hy; exact frame_inv hx⟩
 
 /-- **any history**: coherence holds after every finite sequence of operations (raising
 operations included: they leave the receiver), whichever of receiver / returned dataset each
@@ -109,6 +132,9 @@ theorem pure_leaves_source {d d' x : Ds} {op : Op} (hi : Inv d)
   | setArray sh dat k => simp only [step] at h; split at h <;> simp at h
   | touch => simp [step] at h
   | getitem ix => simp only [step] at h; split at h <;> simp at h; exact h.1.symm
+  | dpReduce k => simp only [step] at h; split at h <;> simp at h; exact h.1.symm
+  | virtualImage ms m => simp only [step] at h; split at h <;> simp at h; exact h.1.symm
+  | frame k => simp only [step] at h; split at h <;> simp at h; exact h.1.symm
   | pad a ip =>
     simp only [step] at h; rw [pad_normal hi a ip] at h
     split at h
@@ -177,6 +203,9 @@ theorem inplace_eq_copy {d : Ds} (hi : Inv d) (op : Op) (hop : op.inplace? ≠ n
   | setArray sh dat k => simp [Op.inplace?] at hop
   | touch => simp [Op.inplace?] at hop
   | getitem ix => simp [Op.inplace?] at hop
+  | dpReduce k => simp [Op.inplace?] at hop
+  | virtualImage ms m => simp [Op.inplace?] at hop
+  | frame k => simp [Op.inplace?] at hop
 
 /-- **indexing**: on a coherent dataset, `ds[ix]` (integers, slices with any step, Ellipsis, at
 most one list) succeeds exactly when NumPy's index normalisation `plan` does and leaves at
@@ -242,6 +271,81 @@ theorem getitem_axes {shape : List Nat} {ix : List Item} {p : Plan} (h : plan sh
   · intro hs; rw [ho, hs]; exact npOrder_sorted _
   · intro j k hk ha
     exact srcIdx_axis p.sels p.order j (by rw [ho]; exact npOrder_nodup _ _) k hk ha
+
+/-- **datasets derived from a `Dataset4dstem` carry the right axes' calibration**: on a coherent
+4D-STEM dataset, `get_dp_mean / get_dp_max / get_dp_median` always succeed and return a
+`Dataset2d` over the two diffraction axes with *their* origin, sampling and units (and, for the
+mean, each pixel is the exact mean over all scan positions); `get_virtual_image(mask)` succeeds
+exactly when the mask has the diffraction-pattern shape and returns a `Dataset2d` over the two
+scan axes with their calibration, each pixel being `Σ array·mask` over the pattern. -/
+theorem derived_4dstem_spec {d : Ds} (hi : Inv d) (hc : d.cls = .d4stem) :
+    (∀ k, ∃ r, dpReduce d k = .ok r ∧ r.cls = .d2 ∧ r.shape = d.shape.drop 2 ∧
+        r.origin = d.origin.drop 2 ∧ r.sampling = d.sampling.drop 2 ∧ r.units = d.units.drop 2) ∧
+    (∀ dat, d.data = some dat → ∃ r out, dpReduce d .mean = .ok r ∧ r.data = some out ∧
+        ∀ j, InBox (d.shape.drop 2) j → (⟨d.shape.drop 2, out⟩ : Arr Val).get j
+          = (((allIdx (d.shape.take 2)).map fun s => (⟨d.shape, dat⟩ : Arr Val).get (s ++ j)).sum).divNat
+              (d.shape.getD 0 0 * d.shape.getD 1 0)) ∧
+    (∀ ms m, (∃ e, virtualImage d ms m = .error e) ↔ ms ≠ d.shape.drop 2) ∧
+    (∀ m, ∃ r, virtualImage d (d.shape.drop 2) m = .ok r ∧ r.cls = .d2 ∧ r.shape = d.shape.take 2 ∧
+        r.origin = d.origin.take 2 ∧ r.sampling = d.sampling.take 2 ∧ r.units = d.units.take 2 ∧
+        ∀ dat, d.data = some dat → ∃ out, r.data = some out ∧
+          ∀ s, InBox (d.shape.take 2) s → (⟨d.shape.take 2, out⟩ : Arr Val).get s
+            = ((allIdx (d.shape.drop 2)).map fun j =>
+                (⟨d.shape, dat⟩ : Arr Val).get (s ++ j) * (⟨d.shape.drop 2, m⟩ : Arr Val).get j).sum) := by
+  obtain ⟨ho, hs, hu, hcl, _⟩ := hi
+  have h4 : d.shape.length = 4 := hcl 4 (by rw [hc]; rfl)
+  simp only [Ds.ndim] at ho hs hu
+  have l2 : ∀ {β : Type} (l : List β), l.length = 4 → last2 l = l.drop 2 := by
+    intro β l hl; simp [last2, hl]
+  have hok2 : classOk .d2 (d.shape.drop 2).length := by
+    intro k hk; simp [DsClass.reqNdim] at hk; simp [h4, ← hk]
+  have hok2' : classOk .d2 (d.shape.take 2).length := by
+    intro k hk; simp [DsClass.reqNdim] at hk; simp [h4, ← hk]
+  have hdp : ∀ k, ∃ r, dpReduce d k = .ok r ∧ r.cls = .d2 ∧ r.shape = d.shape.drop 2 ∧
+      r.origin = d.origin.drop 2 ∧ r.sampling = d.sampling.drop 2 ∧ r.units = d.units.drop 2 ∧
+      r.data = (match k with | .mean => d.data.map (dpMeanData d.shape) | _ => none) := by
+    intro k
+    unfold dpReduce
+    simp only [hc, ne_eq, not_true_eq_false, if_false]
+    rw [l2 _ (ho.trans h4), l2 _ (hs.trans h4), l2 _ (hu.trans h4),
+      fromArray_lists_ok hok2 (by simp [ho, h4]) (by simp [hs, h4]) (by simp [hu, h4])]
+    exact ⟨_, rfl, rfl, rfl, rfl, rfl, rfl, rfl⟩
+  refine ⟨fun k => by obtain ⟨r, h1, h2, h3, h4', h5, h6, _⟩ := hdp k; exact ⟨r, h1, h2, h3, h4', h5, h6⟩, ?_, ?_, ?_⟩
+  · intro dat hdat
+    obtain ⟨r, h1, _, _, _, _, _, h7⟩ := hdp .mean
+    refine ⟨r, dpMeanData d.shape dat, h1, by rw [h7, hdat]; rfl, ?_⟩
+    intro j hj
+    exact build_get _ _ hj
+  · intro ms m
+    constructor
+    · rintro ⟨e, he⟩ hms
+      unfold virtualImage at he
+      simp only [hc, ne_eq, not_true_eq_false, if_false, l2 _ h4, hms] at he
+      rw [fromArray_lists_ok hok2' (by simp [ho, h4]) (by simp [hs, h4]) (by simp [hu, h4])] at he
+      simp at he
+    · intro hms
+      exact ⟨.value, by unfold virtualImage; simp [hc, l2 _ h4, hms]⟩
+  · intro m
+    unfold virtualImage
+    simp only [hc, ne_eq, not_true_eq_false, if_false, l2 _ h4]
+    rw [fromArray_lists_ok hok2' (by simp [ho, h4]) (by simp [hs, h4]) (by simp [hu, h4])]
+    refine ⟨_, rfl, rfl, rfl, rfl, rfl, rfl, ?_⟩
+    intro dat hdat
+    refine ⟨virtualImageData d.shape dat m, by simp [hdat], ?_⟩
+    intro s hs'
+    exact build_get _ _ hs'
+
+/-- **frames of a `Dataset3d`**: `to_dataset2d()[k]` is `ds[k]` for `k < shape[0]` (so
+`getitem_spec` applies: a `Dataset2d` over axes 1, 2 with their calibration), an IndexError
+beyond, and not available on other classes. -/
+theorem frame_spec (d : Ds) (k : Nat) :
+    (d.cls = .d3 → k < d.shape.getD 0 0 → frame d k = getitem d [.int (k : Int)]) ∧
+    (d.cls = .d3 → ¬ k < d.shape.getD 0 0 → frame d k = .error .index) ∧
+    (d.cls ≠ .d3 → frame d k = .error .attribute) := by
+  refine ⟨?_, ?_, ?_⟩
+  · intro hc hk; unfold frame; rw [if_neg (by simp [hc]), if_pos hk]
+  · intro hc hk; unfold frame; rw [if_neg (by simp [hc]), if_neg hk]
+  · intro hc; simp [frame, hc]
 
 /-! ### exact error guards -/
 
@@ -338,5 +442,21 @@ example : (Op.pad (.outShape [4, 4, 7]) true).inplace? ≠ none := by simp [Op.i
 -- error guards are reachable
 example : axesList ex3.ndim (.one 1) = .ok [1] := rfl
 example : (3 : Int) < -(ex3.ndim : Int) ∨ (ex3.ndim : Int) ≤ 3 := by right; decide
+
+/-- a coherent `Dataset4dstem` of shape (2,3,4,4) -/
+def ex4 : Ds := ⟨.d4stem, [2, 3, 4, 4], none, .float, [0, 1, 2, 3], [1, 2, 3, 4], ["a", "b", "c", "d"]⟩
+
+example : Inv ex4 := by
+  refine ⟨rfl, rfl, rfl, ?_, ?_⟩
+  · intro k hk; simp [ex4, DsClass.reqNdim] at hk; simp [ex4, Ds.ndim, ← hk]
+  · intro dat h; simp [ex4] at h
+
+-- the derived-dataset operations succeed on it (hypotheses of `derived_4dstem_spec`)
+example : ∃ r, step ex4 (.dpReduce .mean) = .ok (ex4, some r) ∧ r.cls = .d2 ∧ r.shape = [4, 4] ∧
+    r.units = ["c", "d"] := ⟨_, rfl, rfl, rfl, rfl⟩
+example : ∃ r, step ex4 (.virtualImage [4, 4] []) = .ok (ex4, some r) ∧ r.shape = [2, 3] ∧
+    r.units = ["a", "b"] := ⟨_, rfl, rfl, rfl⟩
+example : ∃ r, step ex3 (.frame 2) = .ok (ex3, some r) ∧ r.cls = .d2 ∧ r.units = ["b", "c"] :=
+  ⟨_, rfl, rfl, rfl⟩
 
 end QuantemModel.Props.C03
